@@ -77,7 +77,30 @@ def _elig_rules():
         uids_male_old=lambda sim: ((~sim.people.female) & (sim.people.age > 20)).uids,
         screen_pos=lambda sim: ss.uids(sim.interventions['scr'].outcomes['positive']),
         screen_pos_alive=lambda sim: ss.uids(sim.interventions['scr'].outcomes['positive']).intersect(sim.people.auids),
+        # round 3: rules whose result depends on the STEP (enrolment windows, programmes that run on alternate steps, rotating
+        # cohorts, an upstream screening that tests nobody on some steps): the rule as evaluated on the step of delivery counts
+        t_enrol_early=lambda sim: dis(sim).infected & _open(sim, sim.ti < 3),
+        t_late_open=lambda sim: dis(sim).infected & _open(sim, sim.ti >= 3),
+        t_alt_steps=lambda sim: _open(sim, sim.ti % 2 == 0),
+        t_alt_infected=lambda sim: dis(sim).infected & _open(sim, sim.ti % 2 == 0),
+        t_two_on_two_off=lambda sim: dis(sim).infected & _open(sim, sim.ti % 4 < 2),
+        t_rotating=lambda sim: sim.people.uid % 3 == sim.ti % 3,
+        t_shrinking=lambda sim: sim.people.uid >= 7 * sim.ti,
+        t_uids_alt=lambda sim: dis(sim).infected.uids if sim.ti % 2 == 0 else ss.uids(),
+        t_uids_enrol_early=lambda sim: dis(sim).infected.uids if sim.ti < 3 else ss.uids(),
+        t_uids_rotating=lambda sim: sim.people.auids[sim.people.auids % 2 == sim.ti % 2],
+        screened_now=lambda sim: sim.interventions['scr'].screened & (sim.interventions['scr'].ti_screened == sim.ti),
     )
+
+
+def _open(sim, cond):
+    """ BoolArr that is True for everybody when the programme is open on this step and for nobody otherwise """
+    return sim.people.age > (-1 if cond else 500)
+
+
+TIME_RULES_TREAT = ['t_enrol_early', 't_late_open', 't_alt_infected', 't_two_on_two_off', 't_rotating', 't_shrinking', 't_uids_alt',
+                    't_uids_enrol_early', 't_uids_rotating', 't_alt_steps']
+TIME_RULES_DELIVERY = ['t_alt_steps', 't_rotating', 't_shrinking', 't_uids_rotating', 't_alt_infected', 't_uids_alt']
 
 
 def n_used(ppl):
@@ -339,6 +362,54 @@ def fixed_cases():
     # a very small step: the window years are matched with np.isclose (rtol 1e-5 ~ 0.02 years around 2000)
     out.append(dict(kind='vx', delivery='routine', own_dt=1, elig='none', vaccine=leaky1, sim=sim(dt=0.02, dur=2, n_agents=40, beta=0.2),
                     sched=dict(start_year=2001, end_year=2001, prob=[1.0], annual_prob=False)))
+    return out
+
+
+def gen_case_r3(rng, kind=None):
+    """ gen_case, then (with extra draws made AFTER gen_case so that the stream gen_case consumes — shared with C01/C13 — is
+        unchanged) a step-dependent eligibility rule; treatments get a small capacity so that agents wait in the queue over
+        steps on which the rule returns somebody else or nobody """
+    case = gen_case(rng, kind)
+    r = rng.random(); rule_t = rng.choice(TIME_RULES_TREAT); rule_d = rng.choice(TIME_RULES_DELIVERY); cap = rng.choice([1, 2, 3, 5, None])
+    p = rng.choice([1.0, 1.0, 0.8])
+    if case['kind'] == 'treat':
+        if case.get('pipeline'):
+            if r < 0.4: case['elig'] = 'screened_now'; case['capacity'] = cap
+        elif r < 0.5:
+            case['elig'] = rule_t; case['capacity'] = cap; case['treat_prob'] = p
+    elif case['kind'] in ('vx', 'screen') and r < 0.2:
+        case['elig'] = rule_d
+    return case
+
+
+def fixed_cases_r3():
+    """ Round-3 families, exercised on every run: eligibility that changes from step to step (closed enrolment, alternate steps,
+        rotating / shrinking cohorts, this step's screened agents only) for a capacity-limited treatment with a backlog, and for
+        vaccination / screening.  The recipients of a step must be within the rule's result ON THAT STEP. """
+    def sim(dt=1.0, dur=8, disease='sis', **kw):
+        d = dict(n_agents=60, start=2000, dur=dur, dt=dt, rand_seed=23, disease=disease, beta=0.5, init_prev=0.35, deaths=None, births=None)
+        d.update(kw); return d
+    cure = dict(rows=[('sis', 'infected', 1.0, 'susceptible')])
+    out = []
+    out.append(dict(kind='treat', delivery='none', own_dt=1, elig='t_enrol_early', capacity=3, treat_prob=1.0, sim=sim(), tx=cure))
+    out.append(dict(kind='treat', delivery='none', own_dt=1, elig='t_uids_alt', capacity=2, treat_prob=0.9, sim=sim(disease='sir', deaths=40),
+                    tx=dict(rows=[('sir', 'infected', 1.0, 'recovered')])))
+    out.append(dict(kind='treat', delivery='none', own_dt=1, elig='t_rotating', capacity=4, treat_prob=1.0, sim=sim(dur=6),
+                    tx=dict(rows=[('sis', 'susceptible', 0.0, 'susceptible'), ('sis', 'infected', 0.6, 'susceptible')])))
+    out.append(dict(kind='treat', delivery='none', own_dt=1, elig='t_shrinking', capacity=2, treat_prob=1.0, sim=sim(dur=6, beta=0.2), tx=cure))
+    out.append(dict(kind='treat', delivery='none', own_dt=1, elig='t_two_on_two_off', capacity=1, treat_prob=1.0, sim=sim(dt=0.5, dur=5), tx=cure))
+    out.append(dict(kind='treat', delivery='none', own_dt=1, elig='t_late_open', capacity=None, treat_prob=1.0, sim=sim(dur=6), tx=cure))
+    out.append(dict(kind='treat', delivery='none', own_dt=2, elig='t_uids_enrol_early', capacity=2, treat_prob=1.0, sim=sim(dur=10), tx=cure))
+    pl = dict(sched=dict(start_year=2001, end_year=2003, prob=[0.6], annual_prob=False),
+              dx=dict(hierarchy=['positive', 'negative'], rows=[('sis', 'susceptible', [0.0, 1.0]), ('sis', 'infected', [1.0, 0.0])]))
+    out.append(dict(kind='treat', delivery='none', own_dt=1, elig='screened_now', capacity=3, treat_prob=1.0, sim=sim(dur=8), tx=cure, pipeline=pl))
+    out.append(dict(kind='vx', delivery='routine', own_dt=1, elig='t_alt_steps', vaccine=dict(kind='leaky', efficacy=1.0), sim=sim(disease='sir', dur=7),
+                    sched=dict(start_year=2001, end_year=2005, prob=[0.5], annual_prob=False)))
+    out.append(dict(kind='vx', delivery='campaign', own_dt=1, elig='t_uids_rotating', vaccine=dict(kind='leaky', efficacy=0.9), sim=sim(disease='sir', dur=6),
+                    sched=dict(years=[2001.0, 2002.0, 2004.0], prob=[1.0])))
+    out.append(dict(kind='screen', delivery='routine', own_dt=1, elig='t_rotating', sim=sim(dur=6),
+                    dx=dict(hierarchy=['positive', 'negative'], rows=[('sis', 'susceptible', [0.0, 1.0]), ('sis', 'infected', [1.0, 0.0])]),
+                    sched=dict(start_year=2001, end_year=2004, prob=[0.8], annual_prob=False)))
     return out
 
 
